@@ -6,7 +6,9 @@
    run).  FedAvg is `fedavg` = Model/C01_Model.fedavg_apply with the gradient-descent
    client program.  `=v=` is coordinatewise == on Q. *)
 From Coq Require Import ZArith QArith List Permutation Bool.
-From FV Require Import Common.NanQ Common.QVec Common.WMean Model.C01_Model Proofs.C01_Proofs Model.C12_Model Proofs.C12_Proofs.
+From FV Require Import Common.NanQ Common.QVec Common.WMean Model.C01_Model Proofs.C01_Proofs Model.C12_Model Proofs.C12_Proofs
+  Proofs.C01_Gen_Proofs Proofs.C12_Gen_Proofs.
+From FV Require gen.Gen_fed_avg gen.Gen_fed_prox gen.Gen_apfl gen.Gen_mime gen.Gen_mime_lite gen.Gen_hyp_cluster.
 Import ListNotations.
 Local Open Scope Q_scope.
 
@@ -134,6 +136,59 @@ Theorem C12_mime_fullbatch_gradient_includes_regularizer :
   vadd (wmean_batch (length p) (cohort_batch_grads g0 split p clients)) (rg p).
 Proof. exact (@sg_q_regularized). Qed.
 
+(* ---- T: the round code as it is today.  gen/Gen_fed_avg, Gen_fed_prox, Gen_apfl, Gen_mime,
+   Gen_mime_lite, Gen_hyp_cluster are translated on this run from the apply functions, their
+   server_update, the client_init / client_step / client_final triples, mime's full-gradient
+   pass, hyp_cluster's trainer and expectation_step.  Each translated apply computes the round
+   skeleton the theorems above are about (clients given as the code's (id, dataset, rng)
+   tuples; fed_prox with grad_fn = the gradient of the FedProx objective, prox_grad). ---- *)
+Theorem C12_source_fedavg_is_skeleton :
+  forall {K U B S OS : Type} (grad : list Q -> B -> U -> list Q) (split : K -> K * U) (copt_init : list Q -> S)
+         (copt_apply : list Q -> S -> list Q -> S * list Q) (sopt : list Q -> OS -> list Q -> OS * list Q)
+         st (clients : list (client (K := K) (B := B))),
+  Gen_fed_avg.apply grad split copt_init copt_apply sopt fst snd st (map as_tuple clients) =
+  option_map reshape (fedavg grad split copt_init copt_apply sopt st clients).
+Proof. exact (@gen_fedavg_is_skeleton). Qed.
+
+Theorem C12_source_fedprox_is_skeleton :
+  forall {K U B S OS : Type} (grad : list Q -> B -> U -> list Q) (split : K -> K * U) (copt_init : list Q -> S)
+         (copt_apply : list Q -> S -> list Q -> S * list Q) (sopt : list Q -> OS -> list Q -> OS * list Q) mu
+         st (clients : list (client (K := K) (B := B))),
+  Gen_fed_prox.apply (prox_grad grad mu) split copt_init copt_apply sopt fst snd st (map as_tuple clients) =
+  option_map reshape (fedprox grad split copt_init copt_apply sopt mu st clients).
+Proof. exact (@gen_fedprox_is_skeleton). Qed.
+
+Theorem C12_source_apfl_global_is_skeleton :
+  forall {K U B S OS : Type} (grad : list Q -> B -> U -> list Q) (split3 : K -> K * U * U) (copt_init : list Q -> S)
+         (copt_apply : list Q -> S -> list Q -> S * list Q) (sopt : list Q -> OS -> list Q -> OS * list Q)
+         st (clients : list (client (K := K) (B := B))),
+  Gen_apfl.apply grad split3 copt_init copt_apply sopt fst snd st (map as_tuple clients) =
+  option_map reshape (apfl_global grad split3 copt_init copt_apply sopt st clients).
+Proof. exact (@gen_apfl_is_skeleton). Qed.
+
+Theorem C12_source_mime_is_skeleton :
+  forall {K U B S : Type} (grad : list Q -> B -> U -> list Q) (split : K -> K * U)
+         (copt_apply : list Q -> S -> list Q -> S * list Q) slr st (clients : list (mclient (K := K) (B := B))),
+  option_map fst (Gen_mime.apply grad (grad_padded grad) (@snd B Z) split copt_apply slr m_len m_srb m_padded st (map as_mtuple clients)) =
+  mime grad split copt_apply slr st clients.
+Proof. exact (@gen_mime_is_skeleton). Qed.
+
+Theorem C12_source_mimelite_is_skeleton :
+  forall {K U B S : Type} (grad : list Q -> B -> U -> list Q) (split : K -> K * U)
+         (copt_apply : list Q -> S -> list Q -> S * list Q) slr st (clients : list (mclient (K := K) (B := B))),
+  option_map fst (Gen_mime_lite.apply grad split copt_apply slr m_len m_srb m_padded
+                    (Gen_mime.grads_for_each_client (grad_padded grad) (@snd B Z) split) st (map as_mtuple clients)) =
+  mimelite grad split copt_apply slr st clients.
+Proof. exact (@gen_mimelite_is_skeleton). Qed.
+
+Theorem C12_source_hypcluster_one_cluster_is_skeleton :
+  forall {K U B S OS : Type} (grad : list Q -> B -> U -> list Q) (split : K -> K * U) (split_pair : K -> K * K)
+         (copt_init : list Q -> S) (copt_apply : list Q -> S -> list Q -> S * list Q)
+         (sopt : list Q -> OS -> list Q -> OS * list Q) p os (clients : list (client (K := K) (B := B))),
+  Gen_hyp_cluster.apply grad split split_pair copt_init copt_apply sopt fst snd (fun _ _ _ => O) ([p], [os]) (map as_tuple clients) =
+  option_map hc_reshape (hypcluster grad split split_pair copt_init copt_apply sopt (fun _ => O) [(p, os)] clients).
+Proof. exact (@gen_hypcluster_is_skeleton). Qed.
+
 (* ---- the instance evaluated by the correspondence check satisfies the hypotheses ----
    its gradient is ls_grad_reg reg = batch gradient of the least-squares loss + 2*reg*w
    (fedjax.grad(per_example_loss, l2_regularizer(reg)); reg = 0: no regularizer) *)
@@ -207,6 +262,12 @@ Print Assumptions C12_mimelite_sgd_lr1_eq_fedavg.
 Print Assumptions C12_mime_sgd_one_step_is_fullbatch_step.
 Print Assumptions C12_mime_control_variate_is_cohort_gradient.
 Print Assumptions C12_mime_fullbatch_gradient_includes_regularizer.
+Print Assumptions C12_source_fedavg_is_skeleton.
+Print Assumptions C12_source_fedprox_is_skeleton.
+Print Assumptions C12_source_apfl_global_is_skeleton.
+Print Assumptions C12_source_mime_is_skeleton.
+Print Assumptions C12_source_mimelite_is_skeleton.
+Print Assumptions C12_source_hypcluster_one_cluster_is_skeleton.
 Print Assumptions C12_ls_gradient_is_regularized.
 Print Assumptions C12_ls_fedprox_mu0_eq_fedavg.
 Print Assumptions C12_ls_hypcluster_eq_fedavg.
